@@ -144,6 +144,7 @@ pub fn c10_wm(g: &mut Gen) {
         let n = vals.len() as u64;
         let mut lines = vec![format!("wm A from u8 {}", vals_str(&vals))];
         for seq in call_sequences(&crate::gen_bv::de_alphabet(n), depth) { lines.push(format!("wm A it items : {}", seq.join(" "))); }
+        for seq in call_sequences(&crate::gen_bv::fwd_alphabet(n), depth) { lines.push(format!("wm A it into : {}", seq.join(" "))); }
         let alpha: Vec<String> = vec!["n", "N0", "N1", "N2", "N7"].into_iter().map(|s| s.to_string()).collect();
         for v in [0u64, 1, 3, 5, 9] {
             for seq in call_sequences(&alpha, depth) { lines.push(format!("wm A it value {} : {}", v, seq.join(" "))); }
